@@ -272,7 +272,8 @@ def run(ctx):
         "(thorough: all pairs) and seeded random histories of length 3-9, executed on Enforcer, on AsyncEnforcer (every call awaited) and on the Lean model; "
         "after every call results, policies, adapter writes, notifications, ~40 decisions/role queries and ~35 public API queries (get_all_*, implicit roles/"
         "permissions/users, domain variants, batch_enforce, enforce_ex) are compared; Enforcer+FileAdapter vs AsyncEnforcer+AsyncFileAdapter on "
-        "histories ending in save_policy + load_policy (incl. histories that empty the policy): results, policies and file bytes; non-trivial/distinct = (configuration, history)"
+        "histories ending in save_policy + load_policy (incl. histories that empty the policy): results, policies and file bytes; filtered / incremental / full loads and "
+        "saves on Enforcer+FilteredFileAdapter vs AsyncEnforcer + the same adapter behind coroutine methods (all single calls and pairs, random histories); non-trivial/distinct = (configuration, history)"
     )
     res.extra["programs"] = len(res.nontrivial)
     res.extra["disagreements_checked"] = res.n_spec + res.n_corr
@@ -351,7 +352,114 @@ def run_file_adapters(ctx, res, deep):
                 break
 
 
+# ------------------------------------------------------------------ filtered loading (FilteredFileAdapter vs an equivalent async adapter)
+
+
+def _filtered_history(args):
+    """one history of filtered / incremental / full loads and saves on Enforcer+FilteredFileAdapter or on
+    AsyncEnforcer + the same adapter behind coroutine methods (an 'equivalent adapter')"""
+    import shutil
+    import tempfile
+
+    shape, rows, hist, is_async = args
+    casbin = common.use_repo()
+    from casbin.persist.adapters import FilteredFileAdapter
+    from casbin.persist.adapters.filtered_file_adapter import Filter
+
+    from casbin.persist.adapters.asyncio import AsyncAdapter
+
+    class AsyncFiltered(AsyncAdapter):
+        def __init__(self, inner):
+            self.inner = inner
+
+        def is_filtered(self):
+            return self.inner.is_filtered()
+
+        async def load_policy(self, model):
+            return self.inner.load_policy(model)
+
+        async def load_filtered_policy(self, model, filter):
+            return self.inner.load_filtered_policy(model, filter)
+
+        async def save_policy(self, model):
+            return self.inner.save_policy(model)
+
+        async def add_policy(self, sec, ptype, rule):
+            pass
+
+        async def remove_policy(self, sec, ptype, rule):
+            pass
+
+        async def remove_filtered_policy(self, sec, ptype, field_index, *field_values):
+            pass
+
+    d = tempfile.mkdtemp(prefix="c18g_")
+    try:
+        path = os.path.join(d, "policy.csv")
+        with open(path, "w") as f:
+            f.write("\n".join(", ".join(r) for r in rows))
+        inner = FilteredFileAdapter(path)
+        if is_async:
+            e = casbin.AsyncEnforcer(casbin.AsyncEnforcer.new_model(text=ec.TEXT[shape]), AsyncFiltered(inner))
+        else:
+            e = casbin.Enforcer(casbin.Enforcer.new_model(text=ec.TEXT[shape]), inner)
+        out = []
+        for op in hist:
+            try:
+                if op[0] in ("loadf", "loadinc"):
+                    flt = Filter()
+                    flt.P, flt.G = list(op[1]), list(op[2])
+                    r = (e.load_filtered_policy if op[0] == "loadf" else e.load_increment_filtered_policy)(flt)
+                elif op[0] == "load":
+                    r = e.load_policy()
+                else:
+                    r = e.save_policy()
+                if asyncio.iscoroutine(r):
+                    r = ec.run_async(r)
+                ret = "ok"
+            except Exception as ex:  # noqa
+                ret = "!" + type(ex).__name__
+            cfg = ec.Config(shape, adapter=False)
+            out.append({"ret": ret, "p": [list(x) for x in e.get_policy()], "g": [list(x) for x in e.get_grouping_policy()], "filtered": bool(e.is_filtered()),
+                        "file": open(path).read(), "decisions": [ec.q_impl(e, ("enforce", tuple(q))) for q in cfg.requests[:6]]})
+        return out
+    finally:
+        shutil.rmtree(d, ignore_errors=True)
+
+
+def run_filtered_loads(ctx, res, deep):
+    rng = ctx["rng"]
+    jobs = []
+    for shape in ("rbac", "dom"):
+        P, G, G2, R = ec.universe(shape)
+        rows = [["p"] + r for r in P] + [["g"] + r for r in G]
+        subs = sorted({r[0] for r in P})
+        filters = [([s], []) for s in subs] + [([], [G[0][0]]), ([subs[0]], [G[0][0]]), ([], []), ([""], [""])]
+        ops = [("loadf", *f) for f in filters] + [("loadinc", *f) for f in filters] + [("load",), ("save",)]
+        for a in ops:
+            jobs.append((shape, rows, [a]))
+            for b in ops:
+                jobs.append((shape, rows, [a, b]))
+        for _ in range(60 if not deep else 600):
+            jobs.append((shape, rows, [rng.choice(ops) for _ in range(rng.randint(3, 5))]))
+    with ec.mp.Pool(12) as pool:
+        so = pool.map(_filtered_history, [(s, r, h, False) for s, r, h in jobs], chunksize=8)
+        ao = pool.map(_filtered_history, [(s, r, h, True) for s, r, h in jobs], chunksize=8)
+    for (shape, rows, hist), rs, ra in zip(jobs, so, ao):
+        res.nontrivial.add(hash(("filtered", shape, repr(hist))))
+        for i, (x, y) in enumerate(zip(rs, ra)):
+            res.evaluations += 1
+            res.count("filtered-load-step")
+            if x != y:
+                k = [k for k in ("ret", "p", "g", "filtered", "file", "decisions") if x[k] != y[k]][0]
+                res.violation({"signature": f"C18:filtered:{k}:{hist[i][0]}", "stream": "filtered",
+                               "what": f"{shape} model, filtered loading: after {[list(o) for o in hist[: i + 1]]} Enforcer+FilteredFileAdapter and AsyncEnforcer + the same adapter behind coroutine methods differ in {k}: sync {str(x[k])[:160]!r} vs async {str(y[k])[:160]!r}",
+                               "case": {"shape": shape, "rows": rows, "history": [list(o) for o in hist[: i + 1]]}, "expected": x, "observed": y, "model_text": ec.TEXT[shape]})
+                break
+
+
 def _run_stage(ctx, res, deep):
+    run_filtered_loads(ctx, res, deep)
     run_file_adapters(ctx, res, deep)
     jobs = gen(ctx, deep)
     store = {}
@@ -395,6 +503,10 @@ def _run_stage(ctx, res, deep):
 
 
 def replay(obj):
+    if obj.get("stream") == "filtered":
+        c = obj["case"]
+        hist = [tuple(tuple(x) if isinstance(x, list) else x for x in o) for o in c["history"]]
+        return _filtered_history((c["shape"], c["rows"], hist, False))[-1] != _filtered_history((c["shape"], c["rows"], hist, True))[-1]
     if obj.get("stream") == "file":
         c = obj["case"]
         hist = [tuple(o) for o in c["history"]]
